@@ -77,15 +77,19 @@ def ref_find(words, kind, q, pos, normalizer_on, all_forms, lemmatizer):
 
 
 def build(lid, wspec):
-    """wspec: list of (pos, lemma, extra or None)"""
+    """wspec: list of (pos, lemma, extra or None[, index of the word whose synset this word's sense joins])"""
     ents, syns, words = [], [], []
-    for i, (pos, lemma, extra) in enumerate(wspec):
+    for i, spec in enumerate(wspec):
+        pos, lemma, extra = spec[:3]
+        share = spec[3] if len(spec) > 3 else None
         P = f'{lid}-'
         forms = [extra] if extra else []
-        ents.append(mk.entry(f'{P}e{i}', lemma, pos, forms=forms, senses=[mk.sense(f'{P}s{i}', f'{P}ss{i}')]))
-        syns.append(mk.synset(f'{P}ss{i}', pos))
+        ssid = f'{P}ss{i if share is None else share}'
+        ents.append(mk.entry(f'{P}e{i}', lemma, pos, forms=forms, senses=[mk.sense(f'{P}s{i}', ssid)]))
+        if share is None:
+            syns.append(mk.synset(ssid, pos))
         words.append({'id': f'{P}e{i}', 'pos': pos, 'forms': [lemma] + forms, 'sense': f'{P}s{i}',
-                      'synset': f'{P}ss{i}', 'sspos': pos})
+                      'synset': ssid, 'sspos': pos if share is None else wspec[share][0]})
     return mk.lexicon(lid, '1', entries=ents, synsets=syns), words
 
 
@@ -211,6 +215,10 @@ def space(tier, seed):
         lexicons += [list(p) for p in itertools.combinations(sub, 2)]
     else:
         lexicons += [list(p) for p in pairs]
+    # two words in ONE synset (same or different part of speech): a synset found through both must be listed
+    # once, and the pos argument of synsets() filters on the synset's part of speech
+    base = [w for w in words if w[2] is None or w[0] == 'n'][:12]
+    lexicons += [[a, tuple(b) + (0,)] for a in base[:6] for b in base if a != b]
     queries = list(dict.fromkeys(alpha + (ALPHABET if tier == 'thorough' else []) + NEAR + INDIC))
     cases = [{'lexicons': lexicons[i:i + BATCH], 'queries': queries, 'pos': qpos}
              for i in range(0, len(lexicons), BATCH)]
